@@ -11,8 +11,8 @@ import "context"
 // ids, node objects linked at registration, policy).
 
 type hPipe struct {
-	ids  [2]NodeID
-	objs [2]*cNode
+	ids  []NodeID
+	objs []*cNode
 	deny bool
 	on   bool
 }
@@ -26,14 +26,14 @@ type hNodeReg struct {
 type hModel struct {
 	b     *Broker
 	ctx   *vCtx
-	nodes [3]hNodeReg // f, s, s2
-	pipes [2]hPipe    // p: f,s   q: f,s2
+	nodes [4]hNodeReg // f, s, s2, x (a filter)
+	pipes [2]hPipe    // p: f,s (or x,f,s)   q: f,s2
 	all   []*cNode    // every node object ever handed to the broker
 	wantP []int       // expected Process count per object
 	wantC []int       // expected Close count per object (only for objects the model knows must be closed)
 }
 
-var hIDs = [3]NodeID{"f", "s", "s2"}
+var hIDs = [4]NodeID{"f", "s", "s2", "x"}
 var hPIDs = [2]PipelineID{"p", "q"}
 
 func hIdx(id NodeID) int {
@@ -49,6 +49,9 @@ func (m *hModel) newObj(slot int) *cNode {
 	n := &cNode{typ: NodeTypeSink}
 	if slot == 0 {
 		n.typ = NodeTypeFormatter
+	}
+	if slot == 3 {
+		n.typ = NodeTypeFilter
 	}
 	m.all = append(m.all, n)
 	m.wantP = append(m.wantP, 0)
@@ -67,8 +70,13 @@ func (m *hModel) objIdx(n *cNode) int {
 
 func (m *hModel) listed(slot int) bool {
 	for _, p := range m.pipes {
-		if p.on && (p.ids[0] == hIDs[slot] || p.ids[1] == hIDs[slot]) {
-			return true
+		if !p.on {
+			continue
+		}
+		for _, id := range p.ids {
+			if id == hIDs[slot] {
+				return true
+			}
 		}
 	}
 	return false
@@ -101,19 +109,32 @@ func (m *hModel) registerNode(slot int, deny bool, tag string) {
 }
 
 func (m *hModel) registerPipeline(pi int, deny bool, tag string) {
-	ids := [2]NodeID{"f", "s"}
+	m.registerPipelineAs(pi, false, deny, tag)
+}
+
+// registerPipelineAs: long selects the longer definition of p (a filter in front: a strict superset of the short one)
+func (m *hModel) registerPipelineAs(pi int, long bool, deny bool, tag string) {
+	ids := []NodeID{"f", "s"}
 	if pi == 1 {
-		ids = [2]NodeID{"f", "s2"}
+		ids = []NodeID{"f", "s2"}
+	} else if long {
+		ids = []NodeID{"x", "f", "s"}
 	}
-	err := m.b.RegisterPipeline(Pipeline{PipelineID: hPIDs[pi], EventType: "t", NodeIDs: ids[:]}, hPPol(deny))
+	err := m.b.RegisterPipeline(Pipeline{PipelineID: hPIDs[pi], EventType: "t", NodeIDs: ids}, hPPol(deny))
 	p := &m.pipes[pi]
-	a, c := m.nodes[hIdx(ids[0])], m.nodes[hIdx(ids[1])]
-	if (p.on && p.deny) || !a.on || !c.on {
+	allOn := true
+	var objs []*cNode
+	for _, id := range ids {
+		r := m.nodes[hIdx(id)]
+		allOn = allOn && r.on
+		objs = append(objs, r.obj)
+	}
+	if (p.on && p.deny) || !allOn {
 		verifAssert(err != nil, tag+".register-pipeline.rejected")
 		return
 	}
 	verifAssert(err == nil, tag+".register-pipeline.accepted")
-	*p = hPipe{ids: ids, objs: [2]*cNode{a.obj, c.obj}, deny: deny, on: true}
+	*p = hPipe{ids: ids, objs: objs, deny: deny, on: true}
 }
 
 func (m *hModel) removePipeline(pi int, tag string) {
@@ -155,8 +176,9 @@ func (m *hModel) send(tag string) {
 	m.b.Send(m.ctx, "t", "payload")
 	for _, p := range m.pipes {
 		if p.on {
-			m.wantP[m.objIdx(p.objs[0])]++
-			m.wantP[m.objIdx(p.objs[1])]++
+			for _, o := range p.objs {
+				m.wantP[m.objIdx(o)]++
+			}
 		}
 	}
 }
@@ -188,6 +210,7 @@ func H_C05_history_vs_model() {
 	for slot := 0; slot < 3; slot++ {
 		m.registerNode(slot, nondetBool(), "C05.history.pre")
 	}
+	m.registerNode(3, false, "C05.history.pre")
 	pre := symLen(0, 3)
 	if pre == 1 || pre == 3 {
 		m.registerPipeline(0, nondetBool(), "C05.history.pre")
@@ -197,10 +220,14 @@ func H_C05_history_vs_model() {
 	}
 	H := verifParam("H")
 	for i := 0; i < H; i++ {
-		op := symLen(0, 11)
+		op := symLen(0, 13)
 		verifNoteInt("op", op)
 		tag := "C05.history"
 		switch op {
+		case 12:
+			m.registerPipelineAs(0, true, nondetBool(), tag)
+		case 13:
+			m.removeNode(3, tag)
 		case 0, 1, 2:
 			m.registerNode(op, nondetBool(), tag)
 		case 3, 4:
